@@ -186,7 +186,20 @@ pub fn recorded_slice(r: &mut Rng, max: usize) -> String {
 const COLS_SET: [usize; 20] = [1, 2, 3, 4, 5, 7, 8, 9, 10, 15, 16, 17, 20, 24, 31, 32, 33, 40, 80, 132];
 const ROWS_SET: [usize; 10] = [1, 2, 3, 4, 5, 6, 8, 10, 24, 50];
 
+/// Rare extreme geometries (beyond the caller's usual caps): very wide and very tall screens, the
+/// byte / power-of-two boundaries included.
+pub fn extreme_size(r: &mut Rng) -> (usize, usize) {
+    if r.chance(1, 2) {
+        (*r.pick(&[200usize, 255, 256, 257, 300, 512]), 1 + r.usize_below(3))
+    } else {
+        (1 + r.usize_below(3), *r.pick(&[100usize, 255, 256, 257, 300]))
+    }
+}
+
 pub fn gen_size(r: &mut Rng, max_cols: usize, max_rows: usize) -> (usize, usize) {
+    if r.chance(1, 150) {
+        return extreme_size(r);
+    }
     let (c, rw) = match r.below(10) {
         0..=4 => (1 + r.usize_below(4), 1 + r.usize_below(4)), // tiny
         5..=7 => (1 + r.usize_below(12), 1 + r.usize_below(8)),
@@ -196,6 +209,9 @@ pub fn gen_size(r: &mut Rng, max_cols: usize, max_rows: usize) -> (usize, usize)
 }
 
 pub fn gen_resize(r: &mut Rng, cols: usize, rows: usize, max_cols: usize, max_rows: usize) -> (usize, usize) {
+    if r.chance(1, 200) {
+        return extreme_size(r);
+    }
     let pm = |r: &mut Rng, v: usize| -> usize {
         match r.below(3) {
             0 => v.saturating_sub(1).max(1),
@@ -244,7 +260,7 @@ pub fn param(r: &mut Rng, edge: usize, p: &Profile) -> String {
         6 => format!("{}", edge + 1),
         7 => format!("{}", edge.saturating_sub(1)),
         8 => format!("{}", edge / 2),
-        9 => (*r.pick(&["255", "256"])).into(),
+        9 => (*r.pick(&["255", "256", "257", "1000", "4095", "4096", "4097"])).into(),
         10 => {
             if p.huge && r.chance(1, 3) {
                 "65535".into()
@@ -281,8 +297,16 @@ pub fn wild_char(r: &mut Rng) -> char {
     char::from_u32(c).unwrap_or('\u{fffd}')
 }
 
+fn colour_index(r: &mut Rng) -> u64 {
+    if r.chance(1, 2) {
+        *r.pick(&[0u64, 1, 7, 8, 9, 15, 16, 17, 231, 232, 254, 255])
+    } else {
+        r.below(256)
+    }
+}
+
 fn sgr_params(r: &mut Rng) -> String {
-    let n = 1 + r.below(4);
+    let n = if r.chance(1, 12) { 8 + r.below(16) } else { 1 + r.below(4) };
     let mut v = vec![];
     for _ in 0..n {
         v.push(match r.below(16) {
@@ -293,13 +317,13 @@ fn sgr_params(r: &mut Rng) -> String {
             4 => format!("{}", 40 + r.below(8)),
             5 => format!("{}", 90 + r.below(8)),
             6 => format!("{}", 100 + r.below(8)),
-            7 => format!("38;5;{}", r.below(256)),
-            8 => format!("48;5;{}", r.below(256)),
-            9 => format!("38:5:{}", r.below(256)),
-            10 => format!("48:5:{}", r.below(256)),
-            11 => format!("38;2;{};{};{}", r.below(256), r.below(256), r.below(256)),
-            12 => format!("48:2:{}:{}:{}", r.below(256), r.below(256), r.below(256)),
-            13 => format!("38:2::{}:{}:{}", r.below(256), r.below(256), r.below(256)),
+            7 => format!("38;5;{}", colour_index(r)),
+            8 => format!("48;5;{}", colour_index(r)),
+            9 => format!("38:5:{}", colour_index(r)),
+            10 => format!("48:5:{}", colour_index(r)),
+            11 => format!("38;2;{};{};{}", colour_index(r), colour_index(r), colour_index(r)),
+            12 => format!("48:2:{}:{}:{}", colour_index(r), colour_index(r), colour_index(r)),
+            13 => format!("38:2::{}:{}:{}", colour_index(r), colour_index(r), colour_index(r)),
             14 => format!("{}", r.pick(&[6, 8, 10, 11, 20, 26, 28, 50, 51, 59, 60, 89, 98, 99, 108, 200])),
             _ => format!("{}", r.pick(&[1, 2, 3, 4, 5, 7, 9])),
         });
@@ -569,7 +593,7 @@ pub fn gen_token_of(r: &mut Rng, fam: usize, cols: usize, rows: usize, p: &Profi
                 format!("{}{}{}", intro, m, r.pick(&['h', 'l']))
             }
             _ => {
-                let m = *r.pick(&["1", "6", "7", "25", "6", "7", "6;7", "7;6", "25;1"]);
+                let m = *r.pick(&["1", "6", "7", "25", "6", "7", "6;7", "7;6", "25;1", "1;2;3;4;5;6;7;8;9;10;11;12;13;14;15;16;17;18;19;25", "7;7;7;7;7;7;7;7;7;7;7;7;7;7;7;7;7;6"]);
                 format!("{}?{}{}", intro, m, r.pick(&['h', 'l']))
             }
         },
